@@ -785,8 +785,13 @@ func (c *Checker) checkRangePattern(node *ast.RangeLiteralNode, typ types.Type) 
 		)
 	}
 
-	c.checkCanMatch(typ, startType, node.Location())
-	node.SetType(startType)
+	boundType := startType
+	if boundType == nil {
+		// beginless range pattern
+		boundType = endType
+	}
+	c.checkCanMatch(typ, boundType, node.Location())
+	node.SetType(boundType)
 	return node, types.Never{}
 }
 
